@@ -541,4 +541,3 @@ Proof.
   destruct Hs as [_ [H1 [H2 _]]]. split; [exact H1|]. split; [exact H2|exact Hc].
 Qed.
 
-Print Assumptions k_opt_valid.
